@@ -1290,7 +1290,9 @@ class Symbolic(
     if field_updates is not None:
       nodes = [update.target for update in field_updates]
     for node in nodes:
-      node._sym_on_silent_change()   # pylint: disable=protected-access
+      node._sym_on_silent_change(   # pylint: disable=protected-access
+          None if field_updates is None
+          else [u for u in field_updates if u.target is node])
       while node is not None:
         # pylint: disable=protected-access
         node._set_raw_attr('_sym_puresymbolic', None)
@@ -1299,11 +1301,16 @@ class Symbolic(
         # pylint: enable=protected-access
         node = node.sym_parent
 
-  def _sym_on_silent_change(self) -> None:
+  def _sym_on_silent_change(
+      self, field_updates: Optional[List[FieldUpdate]] = None) -> None:
     """Called on a changed node when the change is not notified.
 
     Subclasses can override this to do the structural part of `_on_change`
-    (e.g. `pg.List` removes the items that were set to `MISSING_VALUE`).
+    (e.g. `pg.List` removes the items that were set to `MISSING_VALUE`, a
+    functor keeps track of its specified arguments).
+
+    Args:
+      field_updates: The updates whose target is this node, if known.
     """
 
   def _error_message(self, message: str) -> str:
